@@ -269,7 +269,7 @@ CLAIMED = {
              'against the real keeper inside ESME.start() on a virtual-time loop and comparing probe times and drop time to the millisecond; an '
              'oracle states the three sentences of the property on the observed time stamps.',
         note='Trusted: Coq kernel, harness (virtual-time loop: timers fire in time order), asyncio.wait/wait_for semantics. An answer exactly '
-             'socket_timeout after the probe is outside the statement (model and code both treat it as too late). Scenarios of round 9: a peer that stops reading (write back-pressure) must be dropped and the next connection must work (7876ebb: the detached probe task is cancelled with the keeper); a hook that never returns must not keep start() from replacing a lost session (aadaefa/0d0edab); the ESME's own outbound traffic is no sign of life. No axioms.',
+             'socket_timeout after the probe is outside the statement (model and code both treat it as too late). Scenarios of round 9: a peer that stops reading (write back-pressure) must be dropped and the next connection must work (7876ebb: the detached probe task is cancelled with the keeper); a hook that never returns must not keep start() from replacing a lost session (aadaefa/0d0edab); what the ESME sends itself is no sign of life. No axioms.',
         technique='Coq proof: step lemmas and mutual induction over a timed transition system; timed trace correspondence of the real task on a virtual-time loop',
         design='6 (C16)'),
     'C15': dict(
